@@ -9,18 +9,23 @@ def tt_from(cores):
     """fresh TT whose cores keep dtype and strides of the given arrays (every call gets its own buffers)"""
     from scikit_tt.tensor_train import TT
     out = []
+    seen = {}
     for c in cores:
+        if id(c) in seen:       # the same array object used for several cores stays one object
+            out.append(seen[id(c)])
+            continue
         if c.flags['C_CONTIGUOUS']:
             out.append(c.copy())
         else:   # a genuine copy (np.ascontiguousarray would hand back the same buffer for an F-ordered array transposed back)
             out.append(np.transpose(np.array(np.transpose(c, (3, 2, 1, 0)), order='C', copy=True), (3, 2, 1, 0)))
+        seen[id(c)] = out[-1]
     return TT(out)
 
 ID = 'C03'
 LEVEL = 'exploration'
 RULE = ('complete enumeration of order x site dims (vectors and operators) x rank vector (incl. over-parameterised '
         'ranks larger than the neighbouring mode products) x per-core dtype pattern x value family (generic, rank-deficient cores, small '
-        'integers, integer dtype, a zero core, a core of magnitude 1e-170) x memory layout (contiguous, transposed views); per point ortho_left(), ortho_right(), ortho() and EVERY admissible (start_index, end_index) pair of '
+        'integers, integer dtype, a zero core, a core of magnitude 1e-170, one array object used for every core) x memory layout (contiguous, transposed views); per point ortho_left(), ortho_right(), ortho() and EVERY admissible (start_index, end_index) pair of '
         'both one-sided sweeps. Non-trivial: order >= 2 (at least one core is processed).')
 ASSUMPTIONS = ['threshold=0, max_rank=inf (truncation is C04)', 'boundary ranks 1']
 CHUNK = 32
@@ -42,10 +47,12 @@ def cases(tier):
             for cols in itertools.product((dims if d < 3 or q else [1, 2]) if d < 5 else [1], repeat=d):
                 for r in rank_vectors(d, rk):
                     for c in ((False, True, 'tail', 'head') if d > 1 else (False, True)):
-                        for fam in ('gauss', 'lowrank', 'int', 'intdtype', 'zerocore', 'tinycore'):
-                            if d >= 4 and fam not in ('gauss', 'lowrank'):
+                        for fam in ('gauss', 'lowrank', 'int', 'intdtype', 'zerocore', 'tinycore', 'samecore'):
+                            if d >= 4 and fam not in ('gauss', 'lowrank', 'samecore'):
                                 continue
-                            if fam in ('intdtype', 'zerocore', 'tinycore') and c not in (False, True):
+                            if fam == 'samecore' and not (d >= 2 and len(set(rows)) == 1 and len(set(cols)) == 1 and max(r) == 1 and c in (False, True)):
+                                continue
+                            if fam in ('intdtype', 'zerocore', 'tinycore', 'samecore') and c not in (False, True):
                                 continue
                             for lay in (('C', 'V') if fam in ('gauss', 'intdtype') else ('C',)):
                                 yield {'rows': list(rows), 'cols': list(cols), 'r': r, 'c': c, 'fam': fam, 'lay': lay}
@@ -61,6 +68,9 @@ def build(case, rng):
     elif fam == 'zerocore':          # one core is exactly zero (the represented tensor is zero)
         cores = rand_cores(rng, case['rows'], case['cols'], case['r'], case['c'], 'gauss')
         cores[len(cores) // 2] = np.zeros_like(cores[len(cores) // 2])
+    elif fam == 'samecore':          # homogeneous product state written as [core] * d: ONE array object is every core
+        c_ = rand_cores(rng, case['rows'][:1], case['cols'][:1], [1, 1], case['c'], 'gauss')[0]
+        cores = [c_] * len(case['rows'])
     elif fam == 'tinycore':          # one core of tiny magnitude: squares underflow, the tensor itself is representable
         cores = rand_cores(rng, case['rows'], case['cols'], case['r'], case['c'], 'gauss')
         cores[0] = cores[0] * 1e-170
